@@ -28,7 +28,7 @@ TITLE = 'render errors: type, expression, position'
 LEVEL = 'exploration'
 SHARDS = {'quick': 16, 'thorough': 16}
 FLOOR = {'quick': 400, 'thorough': 4000}
-REQUIRED_MONITORS = {'M-exc': 2500, 'records-compared': 2000, 'chain-records-compared': 400, 'non-exception-classes': 100, 'deferred-messages-rechecked': 2000, 'entity-written-compared': 400, 'attribute-failures-compared': 300}
+REQUIRED_MONITORS = {'M-exc': 2500, 'records-compared': 2000, 'chain-records-compared': 400, 'non-exception-classes': 100, 'deferred-messages-rechecked': 2000, 'entity-written-compared': 400, 'attribute-failures-compared': 300, 'literal-use-failures-compared': 300}
 RULE = ('(A) a case = (program, binding table, failing occurrence among those the model reaches, exception class from '
         '{KeyError, ValueError, ZeroDivisionError, CustomError(2 args + attribute), StrOverride, UnicodeDecodeError, '
         'RecursionError, KeyboardInterrupt, SystemExit, GeneratorExit}); (B) a case = (layout of the 3-file chain, failing '
@@ -576,6 +576,43 @@ def layer_attribute_failures(ctx, n):
             finish(ctx, ['records %r, expected %r' % (recs, want)], 'innermost-record-differs', what, replay)
 
 
+def layer_literal_use_failures(ctx, n):
+    """The expression is a literal that evaluates fine; what fails is the USE the statement makes of its value (a number
+    to repeat over, a string to unpack, a string where a mapping of attributes is wanted): the failure belongs to that
+    expression - text, line, column - not to whatever was evaluated before it."""
+    from chameleon import PageTemplate
+    from chameleon.exc import RenderError
+    rng = ctx.rng
+    SHAPES = [('<p tal:repeat="n %s">x</p>', '3', TypeError), ('<p tal:define="(a, b) %s">x</p>', "'1.2'", ValueError),
+              ('<p tal:repeat="(a, b) %s">x</p>', "('xyz',)", ValueError), ('<p tal:attributes="%s">x</p>', 'string:checked', Exception),
+              ('<p tal:repeat="n %s">x</p>', 'None or 7', TypeError), ('<p tal:define="(a, b) %s">x</p>', 'string:abc', ValueError)]
+    # (an expression with sub-expressions of its own, e.g. string:ab${1}, is not generated: which of them a failing USE is
+    # attributed to is not specified)
+    for case in range(n):
+        tpl, expr, cls = rng.choice(SHAPES)
+        lead = rng.choice(['', '<i>${g(1)}</i>', '<i tal:content="g(1)">c</i>\n  ', '\n<b tal:define="zz g(1)">${zz}</b> é '])
+        src = lead + '<root>' + tpl % expr + '</root>'
+        off = src.index(tpl % expr) + (tpl % '\x00').index('\x00')
+        want = [(expr, '<string>') + line_col(src, off)]
+        what = 'template %r: the value of %r cannot be used the way the statement needs' % (src, expr)
+        ctx.mon('literal-use-failures-compared')
+        ctx.case(key=('literal-use', tpl[:22], expr, bool(lead)), nontrivial=True)
+        try:
+            out = PageTemplate(src)(g=lambda i: 'g')
+            finish(ctx, ['render returned %r' % out[:80]], 'failure-swallowed', what, {'kind': 'literal-use', 'src': src})
+            continue
+        except Exception as e:
+            exc = e
+        problems = []
+        if not isinstance(exc, cls) or not isinstance(exc, RenderError):
+            problems.append('raised %r, expected a %s that is also a RenderError' % (type(exc).__mro__[:3], cls.__name__))
+        else:
+            recs = [(a, b[-40:], int(c), int(d)) for a, b, c, d in REC.findall(str(exc))]
+            if recs != want:
+                problems.append('records %r, expected %r' % (recs, want))
+        finish(ctx, problems, 'innermost-record-differs', what, {'kind': 'literal-use', 'src': src})
+
+
 def run(ctx):
     monitors.install(ctx, tokalg=False)
     layer_string_templates(ctx, 150 if ctx.quick else 1000)
@@ -585,6 +622,7 @@ def run(ctx):
     layer_handled_then_later(ctx, 50 if ctx.quick else 300)
     layer_entity_written(ctx, 80 if ctx.quick else 600)
     layer_attribute_failures(ctx, 80 if ctx.quick else 600)
+    layer_literal_use_failures(ctx, 40 if ctx.quick else 400)
 
 
 def replay(data):
